@@ -62,6 +62,18 @@ func (g *vGetGate) log(ev map[string]interface{}) {
 	g.mu.Unlock()
 }
 
+type vGetErrAfter struct {
+	r io.Reader
+}
+
+func (e *vGetErrAfter) Read(p []byte) (int, error) {
+	n, err := e.r.Read(p)
+	if err == io.EOF {
+		return n, io.ErrUnexpectedEOF // the connection breaks instead of ending cleanly
+	}
+	return n, err
+}
+
 type vGetBody struct {
 	io.Reader
 	once sync.Once
@@ -82,6 +94,7 @@ func (g *vGetGate) serve(req *http.Request, k string, cut, extra, flipAt int) (*
 	body := data
 	cl := int64(L)
 	status := 200
+	breaks := false
 	flipped := func() []byte {
 		b := append([]byte(nil), data...)
 		b[flipAt%L] ^= 1 << uint(flipAt%8)
@@ -121,6 +134,18 @@ func (g *vGetGate) serve(req *http.Request, k string, cut, extra, flipAt int) (*
 	case "chunked_long":
 		body = long()
 		cl = -1
+	case "chunked_flip_err", "chunked_long_err":
+		// wrong bytes (at least as many as the block has), then the connection breaks
+		body = flipped()
+		if k == "chunked_long_err" {
+			body = append(body, []byte("xyz")...)
+		}
+		cl = -1
+		breaks = true
+	case "chunked_ok_err":
+		// the right bytes, then the connection breaks before a clean EOF
+		cl = -1
+		breaks = true
 	case "cl_long":
 		body = long()
 	default:
@@ -128,7 +153,11 @@ func (g *vGetGate) serve(req *http.Request, k string, cut, extra, flipAt int) (*
 		body = []byte("refused " + k + "\n")
 		cl = int64(len(body))
 	}
-	tb := &vGetBody{Reader: bytes.NewReader(body), f: func() {
+	var rdr io.Reader = bytes.NewReader(body)
+	if breaks {
+		rdr = &vGetErrAfter{r: rdr}
+	}
+	tb := &vGetBody{Reader: rdr, f: func() {
 		select {
 		case g.consumed <- struct{}{}:
 		default:
@@ -167,7 +196,7 @@ func (g *vGetGate) draw(k string, hint bool) (vGetRel, bool) {
 	if cut < 1 {
 		cut = 1
 	}
-	amb := (k == "chunked_ok" && !hint) || (k == "cl_long" && flipAt%3 != 0)
+	amb := (k == "chunked_ok" && !hint) || (k == "cl_long" && flipAt%3 != 0) || k == "chunked_ok_err"
 	return vGetRel{k, cut, extra, flipAt}, amb
 }
 
